@@ -65,7 +65,7 @@ fn direct(run: &mut Run) -> u64 {
 }
 
 /// reverse proxy header layouts through the socket worker's own request parser
-fn proxy_headers(run: &mut Run) -> u64 {
+fn proxy_headers(run: &mut Run, th: bool) -> u64 {
     let mut n = 0;
     let mut cfg = aquatic_http::config::Config::default();
     cfg.network.runs_behind_reverse_proxy = true;
@@ -78,8 +78,9 @@ fn proxy_headers(run: &mut Run) -> u64 {
     // HTTP field names are case-insensitive: occurrence o is spelled names[(o + case) % 3]; case 0 = as configured throughout
     let names = ["X-Forwarded-For", "x-forwarded-for", "X-FORWARDED-FOR"];
     for case in 0..3usize {
-    for occ in 1..=3usize {
-        for per in 1..=3usize {
+    let top = if th { 5usize } else { 3 };
+    for occ in 1..=top {
+        for per in 1..=top {
             for (wi, w) in ws.iter().enumerate() {
                 for shift in 0..values.len() {
                     for other_pos in 0..=occ {
@@ -319,7 +320,7 @@ fn http_e2e(use4: bool, use6: bool, only6: bool) -> (u64, Vec<V>, String) {
     (n, viols, format!("{}: served, {} sources", label, srcs.len()))
 }
 
-fn http_proxy_e2e() -> (u64, Vec<V>, String) {
+fn http_proxy_e2e(th: bool) -> (u64, Vec<V>, String) {
     let cfg = json!({"network": {"runs_behind_reverse_proxy": true, "reverse_proxy_ip_header_name": "X-Real-Client"}});
     let mut t = TrackerChild::spawn("http", cfg, &[]);
     if !t.wait_ready(30) {
@@ -366,6 +367,11 @@ fn http_proxy_e2e() -> (u64, Vec<V>, String) {
             seqs.push(vec![a, b]);
             for c in 0..4 {
                 seqs.push(vec![a, b, c]);
+                if th {
+                    for d in 0..4 {
+                        seqs.push(vec![a, b, c, d]);
+                    }
+                }
             }
         }
     }
@@ -487,14 +493,14 @@ fn ws_e2e(address: &str, only6: bool) -> (u64, Vec<V>, String) {
 
 pub fn main(args: &Args) -> ! {
     let mut run = Run::new(args, "exploration");
-    run.set("rule", "direct: CanonicalSocketAddr::new / get_ipv6_mapped and the ws IpVersion over IPv4, IPv6, mapped and 24 near-miss addresses x 4 ports; reverse-proxy header layouts (1-3 occurrences x 1-3 comma-separated values x 4 whitespace shapes x value kinds x position of unrelated headers x 3 spellings of the field name differing only in letter case, per occurrence) through the socket worker's parse_request; end to end: UDP (mio, io_uring) and HTTP over socket configurations {v4 only, v6 only, v6 dual-stack, both with v6-only}, WS over {v4, v6 only, v6 dual-stack}, sources 127.0.0.1/.2/.3, 192.0.2.2, ::1, fd00::2 (IPv4 hosts also through the dual-stack socket), every in-request address field value; behind a reverse proxy also every sequence of 2 and 3 header values (IPv4, IPv4, mapped, IPv6) announced over one kept-alive connection; X announces, every other source Y of the family reads the peer list, the other family scrapes. A case = one (configuration, X, field, Y) observation");
+    run.set("rule", "direct: CanonicalSocketAddr::new / get_ipv6_mapped and the ws IpVersion over IPv4, IPv6, mapped and 24 near-miss addresses x 4 ports; reverse-proxy header layouts (1-3, thorough 1-5, occurrences x as many comma-separated values x 4 whitespace shapes x value kinds x position of unrelated headers x 3 spellings of the field name differing only in letter case, per occurrence) through the socket worker's parse_request; end to end: UDP (mio, io_uring) and HTTP over socket configurations {v4 only, v6 only, v6 dual-stack, both with v6-only}, WS over {v4, v6 only, v6 dual-stack}, sources 127.0.0.1/.2/.3, 192.0.2.2, ::1, fd00::2 (IPv4 hosts also through the dual-stack socket), every in-request address field value; behind a reverse proxy also every sequence of 2 and 3 (thorough: and 4) header values (IPv4, IPv4, mapped, IPv6) announced over one kept-alive connection; X announces, every other source Y of the family reads the peer list, the other family scrapes. A case = one (configuration, X, field, Y) observation");
     run.assume("real non-loopback routing is not available");
     if args.replay.is_some() {
         eprintln!("replay: re-running the check");
     }
-    let mut evals = direct(&mut run);
-    evals += proxy_headers(&mut run);
     let th = args.tier.thorough();
+    let mut evals = direct(&mut run);
+    evals += proxy_headers(&mut run, th);
     #[derive(Clone)]
     enum Job {
         Udp(bool, bool, bool, bool),
@@ -521,7 +527,7 @@ pub fn main(args: &Args) -> ! {
     let res = par_map(&jobs, 10, |j| match j {
         Job::Udp(u, a, b, c) => udp_e2e(*u, *a, *b, *c),
         Job::Http(a, b, c) => http_e2e(*a, *b, *c),
-        Job::HttpProxy => http_proxy_e2e(),
+        Job::HttpProxy => http_proxy_e2e(th),
         Job::Ws(a, o) => ws_e2e(a, *o),
     });
     let mut served = 0;
